@@ -146,6 +146,9 @@ def tagged(tag, flagged, body, tagclass, rng):
                 base[0] = ("PYRO", "PYRONAME", "PYROMETA")[(r // len(base)) % 3]      # (the object of a PYROMETA uri is a set of tags)
             if base:
                 base[k] = px
+                if tagclass == "proxy" and k == 0 and (r // len(base)) % 2 == 1:
+                    # the proxy's uri is itself a rebuilt URI object whose host is a proxy: whatever looks at the location looks into it
+                    base[0] = {"__class__": "Pyro5.core.URI", "state": ["PYRO", "obj", None, px, 1234]}
             d["state"] = base or [px]
             d["args"] = [px]
             d["attributes"] = {"p": px}
@@ -246,7 +249,26 @@ def census(obj, out, seen, mods):
         out.add("OTHER:" + t.__module__ + "." + t.__name__)
 
 
+class _Sink(object):
+    pass
+
+
+def switch_logging_on():
+    """the library's own logging at its most talkative, into a handler that builds every message text and throws it away (a
+    decoder must not do, in order to *say* something about what it decodes, what it must not do with it)"""
+    import logging
+
+    class Sink(logging.Handler):
+        def emit(self, record):
+            record.getMessage()
+    lg = logging.getLogger("Pyro5")
+    lg.setLevel(logging.DEBUG)
+    lg.propagate = False
+    lg.addHandler(Sink())
+
+
 def run(ctx):
+    switch_logging_on()
     import sqlite3
     import struct
     from Pyro5 import core, client, server, serializers, errors
